@@ -60,7 +60,7 @@ AUDITED = {
     ("hyeong::app::check::print_un_opt_codes", "Overflow(Sub):(PHI(K0|cmp::max(PHI(K0|LOOPVAR),(String::len(ToString::to_string(U...,String::len(ToString::to_string(UnOptCode::get_location(ELEM<[T]::i..."): WIDTH,
     # the same padding written with iterator folds (max over the same collection the subtraction's right side ranges over)
     ("hyeong::app::check::print_un_opt_codes", "Overflow(Sub):Iterator::fold(Iterator::map([T]::iter(P3),CLOSURE),K0,FN:cmp::max),String::len(ToString::to_string(ELEM<[T]::iter(P3)>.0))"): WIDTH,
-    ("hyeong::app::check::print_un_opt_codes", "Overflow(Sub):Iterator::fold(Iterator::map([T]::iter(P3),CLOSURE),K0,FN:cmp::max),(String::len(ToString::to_string(UnOptCode::get_location(ELEM<[T]::..."): WIDTH,
+    ("hyeong::app::check::print_un_opt_codes", "Overflow(Sub):Iterator::fold(Iterator::map([T]::iter(P3),CLOSURE),K0,FN:cmp::max),(String::len(ToString::to_string(UnOptCode::get_location(ELEM<[T]::...#4e2f19"): WIDTH,
     ("hyeong::app::check::print_un_opt_codes", "BoundsCheck:PtrMetadata(CONST:COMMANDS),KIND"): "a parsed command's kind is 0..5: a start syllable is accepted only if its end syllable occurs later, so kinds 6..8 never reach a finished command (C04.GROUP/DEFS)",
     ("hyeong::app::check::run", "unwrap(Option):Option::as_ref(P2.input)"): INPUT,
     ("hyeong::app::run::run", "unwrap(Option):Option::as_ref(P3.input)"): INPUT,
@@ -73,9 +73,9 @@ AUDITED = {
     ("hyeong::core::execute::pop_stack_wrap", "terminate:exit(K0)"): "program-requested exit, status 0",
     ("hyeong::core::execute::pop_stack_wrap", "terminate:exit(K1)"): "program-requested exit, status 1",
     ("hyeong::core::execute::pop_stack_wrap", "terminate:exit(PHI(K0|K1))"): "program-requested exit, status 0 or 1 chosen by the stack index (C01.POP exit table decides which)",
-    ("hyeong::core::optimize::optimize", "index:Vec<core::code::OptCode>[std::ops::RangeFrom<usize>]:VEC[RangeFrom::RangeFrom{PHI(ELEM<ENUMERATE([T]::iter(VEC))>.0|Vec::len...]"): "slice start is the vector length or an enumerate index, both <= len",
+    ("hyeong::core::optimize::optimize", "index:Vec<core::code::OptCode>[std::ops::RangeFrom<usize>]:VEC[RangeFrom::RangeFrom{PHI(ELEM<ENUMERATE([T]::iter(VEC))>.0|Vec::len...#59d851]"): "slice start is the vector length or an enumerate index, both <= len",
     ("hyeong::core::parse::parse", "Overflow(Sub):(SOME(str::find(K'형항핫흣흡흑혀하흐',ELEM<ENUMERATE(CHARS(P1))>.1)) Div K3),K6"): "t - 6 only after t >= 6 (C04.TOTAL verifies the guard)",
-    ("hyeong::core::parse::parse", "BoundsCheck:K3,((SOME(str::find(K'형항핫흣흡흑혀하흐',ELEM<ENUMERATE(CHARS(P1))>.1)) Div K3..."): "6 <= t <= 8 (C04.TOTAL/TABLES)",
+    ("hyeong::core::parse::parse", "BoundsCheck:K3,((SOME(str::find(K'형항핫흣흡흑혀하흐',ELEM<ENUMERATE(CHARS(P1))>.1)) Div K3...#ec855c"): "6 <= t <= 8 (C04.TOTAL/TABLES)",
     ("hyeong::core::parse::parse", "Overflow(Sub):ELEM<ENUMERATE(CHARS(P1))>.0,PHI((ELEM<ENUMERATE(CHARS(P1))>.0 Add K1)|K0)"): "line start <= current index (C04.DEFS)",
     ("hyeong::util::io::print_error", "terminate:exit(K1)"): "diagnostic exit, status 1",
     ("hyeong::util::io::print_error_no_exit", "unwrap(Result):io::print_note(P1,Error::get_note(P2))"): DIAG,
